@@ -279,9 +279,10 @@ class LinearPolynomial(BaseDeferred):
     def __neg__(self):
         return LinearPolynomial[int]({key: -value for key, value in self.coeffs.items()}, -self.constant_term)
 
-    def _wait(self):
-        # First substitute what is already known without waiting for anything (in particular a
-        # settled promise stands for its value), so that terms which cancel are never awaited
+    def _substitute_known(self):
+        # Substitute what is already known without waiting for anything (in particular a settled
+        # promise stands for its value) and merge the terms, so that terms which cancel are
+        # never awaited
         new_coeffs = []
         new_constant_term = self.constant_term
         for key, value in self.coeffs.items():
@@ -296,6 +297,9 @@ class LinearPolynomial(BaseDeferred):
         new_value = LinearPolynomial[int](new_coeffs, new_constant_term)
         self.coeffs = new_value.coeffs
         self.constant_term = new_value.constant_term
+
+    def _wait(self):
+        self._substitute_known()
 
         new_coeffs = []
         new_constant_term = self.constant_term
@@ -317,6 +321,7 @@ class LinearPolynomial(BaseDeferred):
         new_value = LinearPolynomial[int](new_coeffs, new_constant_term)
         self.coeffs = new_value.coeffs
         self.constant_term = new_value.constant_term
+        self._substitute_known()
 
         return sum(key.wait() * value for key, value in self.coeffs.items()) + self.constant_term
 
